@@ -12,9 +12,10 @@ in real Workflow objects of a real StreamFlowContext) with one eagerly started a
 after every action the projection of the real objects (token_list, queue contents, received sequences,
 pending gets, remaining boundary tags, empty()) is compared with the target state of the transition, and the
 statement's state properties are evaluated on the real objects by object identity.
-A counterexample of the model is never reported by itself: the designated configuration with SelfReplay=TRUE
-(add_inter_port of a self-targeting rule on a port that already holds tokens) is replayed on the real code and
-reported only because the real port enqueues the token a second time.
+The designated configuration with SelfReplay=TRUE (add_inter_port of a self-targeting rule on a port that already
+holds tokens) is model checked with every invariant and its complete graph is replayed too: the repaired
+add_inter_port does not enqueue the replayed token a second time; a real port that does is reported with the
+signature port:InterWorkflowPort:add_inter_port:self-target-replay:double-enqueue.
 """
 from __future__ import annotations
 
@@ -66,7 +67,8 @@ CONFIGS = {
     "s_interi":  dict(scn="inter_inter", cons=2, tags="abc", puts=5, term=1, rules=2, closes=1, rts="mid", putsel="all"),
     "s_interf":  dict(scn="inter_filter", cons=2, tags="abc", admit="ab", puts=5, term=1, rules=2, closes=1, rts="mid", putsel="all"),
     # the environment the engine does not obviously exclude: self-targeting rule added to a non-empty port
-    "selfreplay": dict(scn="inter_plain", cons=1, tags="a", puts=1, term=0, rules=1, closes=0, rts="one", selfreplay=True, getsel="first"),
+    # (model checked with every invariant AND generated + replayed: see _self_replay_finding)
+    "selfreplay": dict(scn="inter_plain", cons=1, tags="ab", puts=2, term=0, rules=2, closes=0, rts="small", selfreplay=True, getsel="first"),
 }
 
 
@@ -113,7 +115,9 @@ def write_cfgs(dst=None):
         elif name.startswith("live"):
             fn, mode = "Live_Port_%s.cfg" % name, "live"
         elif name == "selfreplay":
-            fn, mode = "Gen_Port_selfreplay.cfg", "gencheck"
+            with open(os.path.join(dst, "MC_Port_selfreplay.cfg"), "w") as f:
+                f.write(cfg_text(k, "mc"))
+            fn, mode = "Gen_Port_selfreplay.cfg", "gen"
         else:
             fn, mode = "MC_Port_%s.cfg" % name, "mc"
         with open(os.path.join(dst, fn), "w") as f:
@@ -341,21 +345,27 @@ def _model_check(ctx, name, coverage_actions):
     return r
 
 
-def _self_replay_finding(ctx, sfctx):
-    """TLC finds the double enqueue in the model with SelfReplay=TRUE; it is a finding only if the real port follows."""
+def _self_replay_finding(ctx, sfctx, stats=None):
+    """SelfReplay=TRUE: a self-targeting rule may be added to a port that already holds tokens.  The repaired
+    add_inter_port does not hand the replayed tokens to the port again, so the model has no double enqueue there: TLC
+    checks every invariant on that configuration and its complete concrete graph is replayed on the real ports like the
+    g_* configurations.  Before that, every emitted path that ends with such a rule addition is run on a real port on its
+    own: a double enqueue observed there keeps the signature of the (repaired) defect."""
     from ..sut import port_world as pw
     k = CONFIGS["selfreplay"]
-    r = ctx.tlc("Port", "Gen_Port", "Gen_Port_selfreplay.cfg", files={"Gen_Port_selfreplay.cfg": cfg_text(k, "gencheck")},
-                workers=1, timeout=1200)
-    if r.ok:
-        ctx.count("selfreplay_counterexample", 0)
-        return    # the model no longer has the behaviour: nothing to replay
-    ctx.require(r.error == "invariant" and r.violated == ["NoDoubleEnqueue"] and r.trace,
-                "selfreplay configuration: unexpected TLC result %s %s\n%s" % (r.error, r.violated, r.stdout[-1500:]))
-    path = r.trace[-1]["state"]["path"]
-    ctx.count("selfreplay_counterexample", 1)
+    _model_check(ctx, "selfreplay", ["Put", "Get", "Wake", "AddInterPort"])
+    g = ctx.tlc("Port", "Gen_Port", "Gen_Port_selfreplay.cfg", files={"Gen_Port_selfreplay.cfg": cfg_text(k, "gen")},
+                workers=1, count=False, timeout=1200)
+    ctx.require(g.ok, "generation run selfreplay failed: %s\n%s" % (g.error, g.stdout[-1500:]))
+    lines = g.printed_json()
+    ctx.require(len(lines) == g.generated - 1, "generation selfreplay: %d lines for %d transitions" % (len(lines), g.generated - 1))
+    designated = [ln["path"] for ln in lines
+                  if ln["path"][-1]["op"] == "rule" and ln["path"][-1]["x"] == ln["path"][-1]["p"]
+                  and any(a["op"] == "put" and a["p"] == ln["path"][-1]["p"] for a in ln["path"][:-1])]
+    ctx.require(designated, "selfreplay configuration: no self-targeting rule is added to a port that holds a token")
+    ctx.count("selfreplay_paths", len(designated))
 
-    async def go():
+    async def go(path):
         world = pw.World(sfctx, k["scn"], consumers_of(k), [], variant=0)
         try:
             for a in path:
@@ -366,19 +376,22 @@ def _self_replay_finding(ctx, sfctx):
             return ("done", world.real_state_properties(), world.project())
         finally:
             await world.shutdown()
-    res, exc = aio.run(go(), timeout=120)
-    if exc is not None:
-        raise MachineryError("replay of the selfreplay counterexample failed in the harness: %r" % (exc,))
-    ctx.case(("selfreplay", json.dumps(path, sort_keys=True)))
-    ctx.impl_trace(1)
-    kind, info, state = res
-    if kind == "done" and any(b[0] == "double-enqueue" for b in info):
-        ctx.violation("port:InterWorkflowPort:add_inter_port:self-target-replay:double-enqueue",
-                      {"path": path, "constants": k, "clauses": info, "got_state": state},
-                      "add_inter_port(port=self, PROPAGATE) on a port that already holds the matching token puts the same "
-                      "token object on the port a second time: every consumer receives it twice")
-    else:
-        ctx.count("selfreplay_not_followed_by_code", 1)
+    for path in designated:
+        res, exc = aio.run(go(path), timeout=120)
+        if exc is not None:
+            raise MachineryError("replay of a selfreplay path failed in the harness: %r" % (exc,))
+        ctx.case(("selfreplay", json.dumps(path, sort_keys=True)))
+        ctx.impl_trace(1)
+        kind, info, state = res
+        if kind == "done" and any(b[0] == "double-enqueue" for b in info):
+            ctx.violation("port:InterWorkflowPort:add_inter_port:self-target-replay:double-enqueue",
+                          {"path": path, "constants": k, "clauses": info, "got_state": state},
+                          "add_inter_port(port=self, PROPAGATE) on a port that already holds the matching token puts the same "
+                          "token object on the port a second time: every consumer receives it twice")
+            break
+    # the complete graph of the configuration, compared field by field like every other generated configuration
+    trie = _bind(ctx, sfctx, "selfreplay", lines, stats if stats is not None else _new_stats())
+    ctx.count("edges:selfreplay", trie.n)
 
 
 def run(ctx):
@@ -436,7 +449,7 @@ def run(ctx):
             trie = _bind(ctx, sfctx, name, lines, stats)
             ctx.count("sim_edges:%s" % name, trie.n)
             del lines, trie
-        _self_replay_finding(ctx, sfctx)
+        _self_replay_finding(ctx, sfctx, stats)
     finally:
         aio.run(sfcontext.close(sfctx), timeout=60)
     ctx.impl_trace(stats["transitions"])
